@@ -700,6 +700,19 @@ func (g *gen) recVerify4844() {
 		fmt.Sprint(okv, hExcess == cand, hUsed > a[2]*131072, hUsed%131072 == 0, hUsed < 0, hExcess < 0))
 }
 
+// recBlobParams: the accessors that expose the active schedule to the rest of the client.
+func (g *gen) recBlobParams() {
+	slots, time, _ := g.schedule()
+	if g.r.Intn(6) == 0 {
+		time = g.pick(slots[0][0]+2, 0) // possibly before Cancun: no schedule active
+	}
+	cfg := cfgBlob(slots, -1)
+	g.emit(tl.M{"fn": "blobparams", "slots": slotsJSON(slots), "time": time,
+		"max": eip4844.MaxBlobsPerBlock(cfg, uint64(time)), "target": eip4844.TargetBlobsPerBlock(cfg, uint64(time)),
+		"maxGas": eip4844.MaxBlobGasPerBlock(cfg, uint64(time)), "latestMax": eip4844.LatestMaxBlobsPerBlock(cfg)},
+		fmt.Sprint(time < slots[0][0]))
+}
+
 func (g *gen) recBlobFee() {
 	for try := 0; try < 20; try++ {
 		slots, time, _ := g.schedule()
@@ -789,6 +802,7 @@ func runRecord(path string, seed int64, n int, sum *tl.Summary) {
 		g.recVerify1559()
 		g.recGasLimit()
 		g.recBlobFee()
+		g.recBlobParams()
 		g.recExcess()
 		g.recVerify4844()
 		g.recIntrinsic()
